@@ -1236,7 +1236,7 @@ class FnKinds:
             st = strip(start)
             # segment loop: for(j = P[n]; j < P[n+1]; ++j)
             s_sub, e_sub = _subscript(self._resolve_local(st)), _subscript(self._resolve_local(rhs))
-            if s_sub is not None and e_sub is not None and cmp_op == "<" and plus == 0:
+            if s_sub is not None and e_sub is not None and cmp_op in ("<", "!=") and plus == 0:
                 a1, a2 = self.array_of(s_sub[0]), self.array_of(e_sub[0])
                 if a1 is not None and a2 is not None:
                     n1 = self.canon(s_sub[1])
@@ -1629,7 +1629,58 @@ class FnKinds:
                     return l["d"], Rng(0, r.hi - 1)
         return None
 
+    def _counted_while(self, w):
+        """while(v < E) { ...; ++v; } with v a local initialised before the loop and advanced only by the last statement of the body:
+        the same iteration space as for(v = init; v < E; ++v)"""
+        c = strip(w.get("c"))
+        body = w.get("body")
+        if c is None or c.get("k") != "Bin" or c.get("op") not in ("<", "<=", "!=") or body is None or body.get("k") != "Block" or not body.get("s"):
+            return None
+        l = strip(c["lhs"])
+        plus = 0
+        if l.get("k") == "Bin" and l.get("op") == "+" and strip(l["lhs"]).get("k") == "Ref":
+            sz = self.size(l["rhs"])
+            if sz is None or not sz.is_const():
+                return None
+            l, plus = strip(l["lhs"]), sz.c
+        if l.get("k") != "Ref" or l.get("dk") != "local":
+            return None
+        d = l["d"]
+        last = strip(body["s"][-1])
+        t = _is_incdec(last)
+        if not t or t[0].get("k") != "Ref" or t[0].get("d") != d or t[1] != 1:
+            return None
+        if len(self.mut.get(d, [])) != 1:
+            return None
+        for x in walk(body):
+            if x.get("k") == "Continue":
+                return None
+        v = self.locals.get(d)
+        if v is None or v.get("init") is None or self.decl_depth.get(d, -1) != sum(1 for fr in self.frames if fr.kind == "loop"):
+            return None
+        hi = self.size(c["rhs"])
+        lo_s = self.size(v["init"])
+        if hi is None or lo_s is None or not lo_s.is_const():
+            return None
+        depth = sum(1 for fr in self.frames if fr.kind == "loop")
+        hi_eff = hi - plus + (1 if c["op"] == "<=" else 0)
+        lp = Loop("range", w, var=d, lo=lo_s.c, lo_lin=lo_s, hi=self.norm(hi_eff), depth=depth, extra_inc=[], varname=l["n"], cmp=c["op"], plus=plus, tail=last)
+        lp.rng = Rng(lo_s.c, self.norm(hi_eff))
+        lp.canon = "range(%r,%r)" % (lo_s, self.norm(hi_eff))
+        return lp
+
     def while_(self, w):
+        lp0 = self._counted_while(w)
+        if lp0 is not None:
+            self.expr(strip(w.get("c")).get("rhs"))
+            self.frames.append(Frame("loop", lp0.canon, w, loop=lp0))
+            self.loopvars[lp0.var] = lp0
+            for x in w["body"]["s"][:-1]:
+                self.stmt(x)
+            self.frames.pop()
+            self.loopvars.pop(lp0.var, None)
+            self.ev("loop-end", w, loop=lp0)
+            return
         c = w.get("c")
         depth = sum(1 for fr in self.frames if fr.kind == "loop")
         g = self._guard_of(c)
@@ -2061,6 +2112,52 @@ def coverage(fk, key, base_frames=(), after_seq=0, case=None):
     if skipped or fk.unknown:
         return None, "coverage of %s not evaluable: assignments %s are not of a modelled form" % (key, "; ".join(skipped) or "inside unmodelled constructs")
     return False, "extent is [0,%r) but the assignments only cover [0,%r)%s" % (ext, cur, (" (" + "; ".join("%s=[%r,%r)" % (p[2], p[0], p[1]) for p in pieces) + ")") if pieces else " (no covering assignment found)")
+
+
+def elsewhere(fk, keys=(), names=()):
+    """Could an effect that a rule does not find in `fk.fn` be achieved by a construct the engine does not model?
+    -> description of the first such construct (a member helper of the same class, a lambda, a call that receives one of the
+    objects/arrays `keys` (or a pointer/reference/iterator derived from it) in a mutable position), or None."""
+    cls = fk.fn.cls or ""
+    known = ("FEAT::assertion", "FEAT::abortion")
+    for e in fk.events:
+        if e.kind != "call":
+            continue
+        n = e.node
+        callee = n.get("callee") or ""
+        if callee in known or callee.startswith("std::") and not n.get("a"):
+            continue
+        if n.get("k") in ("Construct", "TempObj") and len(n.get("a", [])) == 1:
+            continue          # copy / move construction (return value, pass by value): does not change the source's contents
+        # helper of the same class (not one of the names the rule itself interprets)
+        if cls and n.get("ccls") == cls and e.name not in names and not n.get("cconst") and n.get("k") == "MCall" and e.obj == fk.this_key:
+            return "member helper %s() may do it" % e.name
+        pts = n.get("pt", [])
+        for i, a in enumerate(n.get("a", [])):
+            a2 = strip(a)
+            if a2 is None:
+                continue
+            if a2.get("k") == "Lambda":
+                return "a lambda passed to %s may do it" % (e.name or callee)
+            k = None
+            if a2.get("k") == "Un" and a2.get("op") == "&":
+                sub = _subscript(a2["e"])
+                k = (fk.sub_arr(a2["e"]).key if sub is not None and fk.sub_arr(a2["e"]) is not None else fk.okey(a2["e"]))
+            elif a2.get("k") == "MCall" and a2.get("n") in ("data", "begin", "end") and a2.get("obj") is not None:
+                k = fk.okey(a2.get("obj"))
+            else:
+                arr = fk.array_of(a2) if a2.get("k") in ("Ref", "Member") else None
+                k = arr.key if arr is not None else fk.okey(a2)
+            if k is not None and k in keys:
+                ty = fk.fn.type(pts[i]) if i < len(pts) else ""
+                if not (ty.startswith("const") and ty.endswith("&")) and not (callee.startswith("std::") and e.name in ("size", "empty")):
+                    if e.name in names:
+                        continue
+                    return "%s is handed to %s(), which is not modelled" % (k, e.name or callee)
+    for n in fk.fn.nodes():
+        if n.get("k") == "Lambda":
+            return "a lambda in the function may do it"
+    return None
 
 
 def frames_canon(frames, upto=None):
